@@ -39,6 +39,18 @@ Correspondence streams (real code vs the Lean driver executing those very defini
                     carries the statistics of that independent fit.  statistics_['n_samples'] of every candidate is compared in
                     all the real-fit streams.
 
+  search.options    real code + oracle only, fixed list in every run (`gen_option_specs`, no draw decides): (a) grids whose values
+                    include None over constraints / penalties (1-D = all terms alike, per-term lists with scalar entries, alone and
+                    jointly with lam / each other), LinearGAM / LogisticGAM, s and l terms, from models whose OWN setting is not None;
+                    (b) verbose=True models, fitted and unfitted, over n_splines x spline_order (x lam) grids that contain
+                    combinations that cannot be fitted (warnings / stdout captured).  Oracle: the returned models (read back through
+                    the public plural attributes) are exactly the feasible points of the itertools product -- every returned model is
+                    a requested grid point, carries its own statistics_[objective] as score, differs from the start only in the
+                    grid parameters, and can be refitted independently from ALL the hyper-parameters it carries to the same score;
+                    the fitted start is in the dict once with its own score; keep_best ends on an entry attaining the minimum.
+                    Feasible candidates that are invalid half-way through the sequential set_params (known finding
+                    C10-joint-grid-sequential-validation) are not demanded (none occurs in the fixed list); an EXTRA model is always judged.
+
 Oracle (real code only): the property text, see `_oracle_*`.
 """
 import ast
@@ -2244,6 +2256,307 @@ def run_data(ctx, pygam):
 
 
 # ------------------------------------------------------------------------------------------------
+# stream 6: grids over options for which None is a value, and verbose models with infeasible combinations (real code + oracle only)
+# ------------------------------------------------------------------------------------------------
+OPT_PARAMS = ('n_splines', 'spline_order', 'lam', 'constraints', 'penalties')
+
+
+def _opt_norm(v):
+    if v is None or isinstance(v, str):
+        return v
+    if isinstance(v, (bool, np.bool_)):
+        return bool(v)
+    if isinstance(v, (int, np.integer)):
+        return int(v)
+    if isinstance(v, (float, np.floating)):
+        return float(v)
+    return str(v)
+
+
+def opt_model(pygam, spec, over=None):
+    """fresh model of an options spec (terms s / l: one slot per term and parameter); `over[param]` = one value per term"""
+    over = over or {}
+    out = None
+    for i, t in enumerate(spec['terms']):
+        v = {p: (over[p][i] if p in over else t.get(p)) for p in OPT_PARAMS}
+        if t['kind'] == 's':
+            term = pygam.s(t['feature'], n_splines=int(v['n_splines']), spline_order=int(v['spline_order']), lam=float(v['lam']),
+                           constraints=v['constraints'], penalties=v['penalties'])
+        else:
+            term = pygam.l(t['feature'], lam=float(v['lam']), penalties=v['penalties'])      # l() takes no constraints
+        out = term if out is None else out + term
+    kw = dict(tol=1e-8, max_iter=spec.get('max_iter', 300), verbose=bool(spec.get('verbose')))
+    return getattr(pygam, spec['cls'])(out, **kw)
+
+
+def opt_data(spec):
+    rs = np.random.RandomState(spec['data_seed'])
+    n = spec['n']
+    X = rs.rand(n, 2)
+    eta = -2.0 * X[:, 0] + np.sin(3.0 * X[:, 1])        # decreasing in feature 0: shape constraints bind
+    if spec['cls'] == 'LogisticGAM':
+        y = (rs.rand(n) < 1.0 / (1.0 + np.exp(-2.0 * eta - 0.5))).astype(float)
+    else:
+        y = eta + 0.1 * rs.randn(n)
+    return X, y
+
+
+def opt_grid_values(grid, T):
+    """the property text: per-term value tuples requested by one grid (1-D: the value for all terms alike; list with a list
+    inside: one entry per term, Cartesian product), or None when the grid is neither"""
+    if not isinstance(grid, list) or not grid:
+        return None
+    if not any(isinstance(g, list) for g in grid):
+        return [tuple([_opt_norm(g)] * T) for g in grid] if len(grid) >= 2 else None
+    if len(grid) != T:
+        return None
+    return [tuple(_opt_norm(v) for v in c) for c in itertools.product(*[g if isinstance(g, list) else [g] for g in grid])]
+
+
+def opt_read(m, params):
+    return [[_opt_norm(v) for v in _flat(getattr(m, p))] for p in params]
+
+
+def gen_option_specs():
+    """fixed list (no draw decides): (a) grids containing None over constraints / penalties, 1-D and per-term forms, alone and jointly,
+    from models whose own setting is not None; (b) verbose=True models, fitted and not, with grids that contain combinations
+    that cannot be fitted"""
+    def S(f, **kw):
+        return dict(dict(kind='s', feature=f, n_splines=10, spline_order=3, lam=0.6, constraints=None, penalties='auto'), **kw)
+
+    def L(f, **kw):
+        return dict(dict(kind='l', feature=f, n_splines=None, spline_order=None, lam=0.6, constraints=None, penalties='auto'), **kw)
+    inc, dec, cvx, ccv = 'monotonic_inc', 'monotonic_dec', 'convex', 'concave'
+    C = []
+
+    def add(cls, terms, grids, fitted, keep_best, verbose=False):
+        C.append(dict(cls=cls, terms=terms, grids=grids, fitted=fitted, keep_best=keep_best, verbose=verbose, n=200,
+                      data_seed=4100 + len(C)))
+    # (a) None is a candidate value
+    add('LinearGAM', [S(0, constraints=inc), S(1)], [['constraints', [None, inc]]], False, True)
+    add('LinearGAM', [S(0, constraints=inc), S(1, constraints=ccv)], [['constraints', [dec, None, cvx]]], True, False)
+    add('LinearGAM', [S(0, penalties='derivative'), S(1, penalties='l2')], [['penalties', [None, 'auto']]], False, True)
+    add('LinearGAM', [S(0, penalties='derivative'), S(1, penalties='l2')], [['penalties', [[None, 'auto'], ['l2']]]], True, True)
+    add('LinearGAM', [S(0, constraints=inc), S(1, constraints=ccv)], [['constraints', [[None, inc], None]]], False, True)
+    add('LinearGAM', [S(0, constraints=inc), S(1, constraints=ccv)], [['constraints', [None, dec]], ['lam', [0.1, 10.0]]], True, True)
+    add('LinearGAM', [S(0, constraints=inc, penalties='l2'), S(1, penalties='l2')],
+        [['penalties', ['auto', None]], ['constraints', [dec, None]]], False, True, verbose=True)
+    add('LinearGAM', [S(0, penalties='derivative'), L(1, penalties='l2')], [['penalties', ['auto', None]]], True, True)
+    add('LogisticGAM', [S(0, constraints=inc), S(1, penalties='l2')], [['constraints', [None, dec]]], False, True)
+    add('LogisticGAM', [S(0, penalties='l2'), S(1, penalties='l2')], [['penalties', [[None, 'derivative'], [None, 'l2']]]], True, False)
+    # (b) verbose models, grids with combinations that cannot be fitted (n_splines <= spline_order)
+    two = [S(0, n_splines=20), S(1, n_splines=20)]
+    for fitted in (True, False):
+        add('LinearGAM', two, [['n_splines', [4, 12]], ['spline_order', [3, 5]]], fitted, True, verbose=True)
+    add('LinearGAM', two, [['spline_order', [3, 5]], ['n_splines', [4, 12]]], True, False, verbose=True)
+    add('LinearGAM', [S(0, spline_order=2), S(1, spline_order=2)], [['n_splines', [3, 5, 9]], ['spline_order', [2, 4]], ['lam', [0.3, 3.0]]],
+        True, True, verbose=True)
+    add('LogisticGAM', two, [['n_splines', [[4, 8], [6]]], ['spline_order', [3, 5]]], True, True, verbose=True)
+    add('LogisticGAM', two, [['lam', [0.5, 5.0]], ['spline_order', [1, 4]], ['n_splines', [4, 7]]], False, True, verbose=True)
+    add('LinearGAM', two, [['n_splines', [4, 12]], ['spline_order', [3, 5]]], True, True, verbose=False)
+    return C
+
+
+def run_option_case(spec):
+    """implementation run + property oracle; everything returned is json-able"""
+    import warnings
+    pygam = common.import_pygam()
+    X, y = opt_data(spec)
+    robj = 'UBRE' if spec['cls'] == 'LogisticGAM' else 'GCV'
+    params = [g[0] for g in spec['grids']]
+    T = len(spec['terms'])
+    res = dict(oracle=[], notes={})
+    orc = res['oracle']
+
+    def fit(m):
+        with warnings.catch_warnings():
+            warnings.simplefilter('ignore')
+            with quiet():
+                m.fit(X, y)
+        return m
+
+    def cold(over):
+        """independent fit -> (score, converged) or None when these hyper-parameters cannot be fitted"""
+        try:
+            c = fit(opt_model(pygam, spec, over))
+        except ValueError:
+            return None
+        return float(c.statistics_[robj]), converged(c)
+
+    per = [opt_grid_values(g[1], T) for g in spec['grids']]
+    assert all(v is not None for v in per), spec
+    want = [list(c) for c in itertools.product(*per)]
+    gam = opt_model(pygam, spec)
+    pre = None
+    if spec['fitted']:
+        fit(gam)
+        pre = dict(key=opt_read(gam, params), score=float(gam.statistics_[robj]), coef=[_bits(v) for v in gam.coef_])
+    kw = dict(return_scores=True, keep_best=spec['keep_best'], progress=False)
+    for p, g in spec['grids']:
+        kw[p] = json.loads(json.dumps(g))
+    try:
+        with warnings.catch_warnings(record=True) as wl:
+            warnings.simplefilter('always')
+            with quiet():
+                out = gam.gridsearch(X, y, **kw)
+        res['n_warnings'] = len(wl)
+    except Exception as ex:      # noqa
+        orc.append(dict(kind='valid request raised', got=type(ex).__name__, msg=str(ex)[:200]))
+        return res
+    if out is gam or not hasattr(out, 'items'):
+        orc.append(dict(kind='return_scores=True did not return the dict of models'))
+        return res
+    items = list(out.items())
+    # the requested candidates, fitted independently
+    start = {p: [t.get(p) for t in spec['terms']] for p in ('n_splines', 'spline_order')}
+
+    def seq_invalid(cand):
+        """feasible candidate that is infeasible half-way when the parameters are set one after the other in keyword order
+        (known finding C10-joint-grid-sequential-validation: skipped; not judged here)"""
+        cur = {p: list(v) for p, v in start.items()}
+        for p, part in zip(params, cand):
+            if p in cur:
+                cur[p] = list(part)
+                if any(a is not None and b is not None and a <= b for a, b in zip(cur['n_splines'], cur['spline_order'])):
+                    return True
+        return False
+    feasible, tolerated = {}, set()
+    for cand in want:
+        c = cold({p: list(part) for p, part in zip(params, cand)})
+        k = json.dumps([list(part) for part in cand])
+        if c is not None:
+            feasible[k] = c
+            if seq_invalid(cand):
+                tolerated.add(k)
+    res['n_want'], res['n_feasible'], res['n_tolerated'] = len(want), len(feasible), len(tolerated)
+    thr = SCORE_RTOL * FAIL_MARGIN
+    gotkeys = []
+    worst = 0.0
+    selfs = [i for i, (m, _) in enumerate(items) if m is gam]
+    if spec['fitted']:
+        if len(selfs) != 1:
+            orc.append(dict(kind='the fitted starting model is not among the returned models exactly once', n=len(selfs)))
+        elif float(items[selfs[0]][1]) != pre['score']:
+            orc.append(dict(kind='score of the fitted starting model is not its objective before the call', got=float(items[selfs[0]][1]), want=pre['score']))
+    elif selfs:
+        orc.append(dict(kind='the unfitted starting model is among the returned models'))
+    for i, (m, sc) in enumerate(items):
+        if m is gam:
+            continue
+        k = json.dumps(opt_read(m, params))
+        gotkeys.append(k)
+        try:
+            sc = float(sc)
+            own = float(m.statistics_[robj])
+        except Exception as ex:      # noqa
+            orc.append(dict(kind='returned model has no objective value', key=k, got=type(ex).__name__))
+            break
+        if sc != own and not (sc != sc and own != own):
+            orc.append(dict(kind='score is not statistics_[objective] of its model', key=k, score=sc, own=own))
+            break
+        if k not in [json.dumps([list(p) for p in c]) for c in want]:
+            orc.append(dict(kind='returned model is not a point of the requested grid', key=k, params=params, score=sc))
+            break
+        # every returned model can be refitted independently, from ALL the hyper-parameters it carries, to the same score
+        allp = dict(zip(OPT_PARAMS, opt_read(m, OPT_PARAMS)))
+        if any(len(v) != T for v in allp.values()):
+            orc.append(dict(kind='returned model does not carry one value per term', key=k, carried=allp))
+            break
+        c = cold(allp)
+        if c is None:
+            orc.append(dict(kind='returned model carries hyper-parameters that cannot be fitted independently', key=k, carried=allp, score=sc))
+            break
+        untouched = {p: allp[p] for p in OPT_PARAMS if p not in params and allp[p] != [t.get(p) for t in spec['terms']]}
+        if untouched:
+            orc.append(dict(kind='candidate differs from the starting model in a parameter that is not in the grid', key=k, differs=untouched))
+            break
+        if not (np.isfinite(c[0]) and (c[1] or converged(m))):
+            res['notes']['not comparable (no fit converged / not finite)'] = res['notes'].get('not comparable (no fit converged / not finite)', 0) + 1
+            continue
+        err = 0.0 if sc == c[0] else abs(sc - c[0]) / max(abs(c[0]), 1e-300)
+        if not err <= thr:
+            orc.append(dict(kind='candidate score differs from an independent cold fit', key=k, in_search=sc, cold=c[0], rel=err, thr=thr,
+                            in_search_converged=converged(m), cold_converged=c[1]))
+            break
+        worst = max(worst, err)
+    res['worst_score_err'] = worst
+    if not orc:
+        missing = [k for k in feasible if k not in gotkeys and k not in tolerated]
+        extra = list(gotkeys)
+        for k in feasible:
+            if k in extra:
+                extra.remove(k)
+        if missing or extra:
+            orc.append(dict(kind='fitted candidates are not the Cartesian product of the grids', params=params, missing=missing[:5],
+                            unexpected=extra[:5], n_feasible=len(feasible), n_got=len(gotkeys)))
+    if not orc and spec['keep_best'] and items:
+        # the model ends as an entry attaining the minimum score
+        scores = [float(sc) for _, sc in items]
+        keys = [pre['key'] if m is gam else opt_read(m, params) for m, _ in items]
+        lo = min(scores)
+        try:
+            end = float(gam.statistics_[robj])
+            endkey = opt_read(gam, params)
+        except Exception as ex:      # noqa
+            end, endkey = None, type(ex).__name__
+        if end != lo or endkey not in [k for k, sc in zip(keys, scores) if sc == lo]:
+            orc.append(dict(kind='keep_best: the model does not end as a returned entry attaining the minimum score', end_score=end,
+                            end_key=endkey, min_score=lo, entries=[[k, sc] for k, sc in zip(keys, scores)][:8]))
+    if not orc and not spec['keep_best'] and spec['fitted']:
+        if [_bits(v) for v in gam.coef_] != pre['coef'] or opt_read(gam, params) != pre['key']:
+            orc.append(dict(kind='keep_best=False changed the fitted model'))
+    return res
+
+
+def _option_worker(spec):
+    try:
+        return run_option_case(spec)
+    except Exception:      # noqa
+        import traceback
+        return dict(harness_error=traceback.format_exc())
+
+
+def option_sig(spec):
+    return dict(cls=spec['cls'], terms=''.join(t['kind'] for t in spec['terms']), grids=[[p, json.dumps(g)] for p, g in spec['grids']],
+                fitted=spec['fitted'], keep_best=spec['keep_best'], verbose=spec['verbose'],
+                start=[[t.get('constraints'), t.get('penalties'), t.get('n_splines'), t.get('spline_order')] for t in spec['terms']])
+
+
+def judge_option(ctx, st, spec, res):
+    if 'harness_error' in res:
+        raise RuntimeError('worker failed on %r\n%s' % (spec, res['harness_error']))
+    sig = option_sig(spec)
+    ctx.case(st, sig, nontrivial=True, sample=sig)
+    for k in ('n_tolerated',):
+        if res.get(k):
+            ctx.count(st + ' feasible candidates invalid half-way (known finding, not judged)', res[k])
+    for k, v in res.get('notes', {}).items():
+        ctx.count(st + ' ' + k, 1, v)
+    if 'worst_score_err' in res:
+        ctx.count(st + ' worst relative score error', '%.0e' % res['worst_score_err'] if res['worst_score_err'] else '0')
+    if res['oracle']:
+        o = res['oracle'][0]
+        ctx.fail(st, dict(sig, failure=o['kind']), dict(spec=spec, how='harness.props.c10.run_option_case(spec)'), observed=o,
+                 expected=o['kind'] + ' must not happen (property C10)',
+                 oracle='itertools product of the grids over the per-term values (None is a value); independent cold fits from the '
+                        'hyper-parameters every returned model carries')
+
+
+def run_options(ctx):
+    st = 'search.options'
+    ctx.stream(st, 'real gridsearch over options for which None is a value (constraints, penalties; 1-D and per-term grids, alone and '
+                   'jointly) from models whose own setting is not None, and from verbose=True models (fitted / unfitted) over grids that '
+                   'contain combinations that cannot be fitted; oracle: the returned models are exactly the feasible points of the '
+                   'itertools product, each refitted independently from the hyper-parameters it carries to the same score; self entry; keep_best')
+    specs = gen_option_specs()
+    import multiprocessing as mp
+    with mp.Pool(int(os.environ.get('VERIF_PROCS', '12'))) as pool:
+        results = pool.map(_option_worker, specs, chunksize=1)
+    for spec, res in zip(specs, results):
+        judge_option(ctx, st, spec, res)
+
+
+# ------------------------------------------------------------------------------------------------
 def run(ctx):
     pygam = common.import_pygam()
     lits = harvest_literals(pygam)
@@ -2271,6 +2584,7 @@ def run(ctx):
     run_combine(ctx, pygam, lits)
     run_scripted(ctx, pygam, lits)
     run_data(ctx, pygam)
+    run_options(ctx)
     run_real(ctx, pygam, lits)
     if os.environ.get('C10_DEBUG'):
         json.dump(dict(failing=ctx.failing, broken=ctx.broken), open(os.environ['C10_DEBUG'], 'w'), indent=1, default=str)
@@ -2283,6 +2597,9 @@ def replay(ctx, rp):
     case = rp.get('case') or {}
     spec = case.get('spec')
     st = rp.get('stream')
+    if spec is not None and st == 'search.options':
+        ctx.stream(st, 'replay')
+        return judge_option(ctx, st, spec, _option_worker(spec))
     if spec is None or st not in ('grid.scripted', 'search.real', 'objective.table', 'search.optimiser', 'search.otherdata', 'search.weights'):
         return run(ctx)
     ctx.stream(st, 'replay')
